@@ -548,8 +548,26 @@ func c11Flow(c *Ctx) {
 				c.Violate("flow-apply", "served patch cannot be applied to the MPD it was advertised in: "+err.Error(), rp, nil)
 				continue
 			}
-			if canonXML(applied) != canonXMLStr(string(m2.body)) {
-				c.Violate("flow-result", "MPD(t1) + patch differs from MPD(t2)", rp, nil)
+			if ca, cb := canonXML(applied), canonXMLStr(string(m2.body)); ca != cb {
+				i := 0
+				for i < len(ca) && i < len(cb) && ca[i] == cb[i] {
+					i++
+				}
+				lo := i - 160
+				if lo < 0 {
+					lo = 0
+				}
+				cut := func(x string) string {
+					hi := i + 160
+					if hi > len(x) {
+						hi = len(x)
+					}
+					if lo > len(x) {
+						return ""
+					}
+					return x[lo:hi]
+				}
+				c.Violate("flow-result", "MPD(t1) + patch differs from MPD(t2)", rp, map[string]any{"patched": cut(ca), "served": cut(cb), "patch": string(rec.Body.Bytes())})
 			}
 		}
 	}
